@@ -512,6 +512,9 @@ func (i *IniParser) parse(ini *ini) error {
 
 	var quotesLookup = make(map[*Option]bool)
 
+	// Options which already received a default from this ini file
+	var iniDefaulted = make(map[*Option]bool)
+
 	for _, name := range ini.order {
 		section := ini.Sections[name]
 		groups := i.matchingGroups(name)
@@ -555,7 +558,12 @@ func (i *IniParser) parse(ini *ini) error {
 
 			// ini value is ignored if parsed as default but defaults are prevented
 			if i.ParseAsDefaults && opt.preventDefault {
-				continue
+				if !iniDefaulted[opt] {
+					continue
+				}
+
+				// A repeated entry accumulates like a repeated flag
+				opt.preventDefault = false
 			}
 
 			pval := &inival.Value
@@ -605,6 +613,10 @@ func (i *IniParser) parse(ini *ini) error {
 
 			// Defaults from ini files take precendence over defaults from parser
 			opt.preventDefault = true
+
+			if i.ParseAsDefaults {
+				iniDefaulted[opt] = true
+			}
 
 			// either all INI values are quoted or only values who need quoting
 			if _, ok := quotesLookup[opt]; !inival.Quoted || !ok {
